@@ -47,7 +47,7 @@ VARIANTS = {
     "all": ((2, 16), None, None, None, (("stationId", "asc"),)),
     "f_ne": ((2, 16), ("header.stationId", "!=", 1001), 1000, None, (("stationId", "desc"),)),
     "f_type": ((2, 16), ("cam.camParameters.basicContainer.stationType", "==", 5), None, 1, (("stationId", "asc"),)),
-    "f_cam": ((2,), ("cam.camParameters.basicContainer.stationType", "==", 6), 0, None, None),
+    "f_cam": ((2,), ("cam.camParameters.basicContainer.stationType", "==", 0), 0, None, None),
 }
 # parameter lattice of the validation part: name -> (valid value, invalid values)
 BADVALS = {"type": [(99,)], "priority": [256, -1], "interval": [-1, 4398046511104], "multiplicity": [256, -1]}
